@@ -100,6 +100,9 @@ def finish(pid, tier, obligations, t0, *, level="proof", technique="", units=Non
         if hits:
             lines.append(f"KNOWN-FINDING: property={pid} {f['id']}: {f['description']} ({len(hits)} obligation(s))")
     vio_lines = []
+    import shutil
+
+    shutil.rmtree(os.path.join(REPLAYS, pid), ignore_errors=True)
     if violations:
         os.makedirs(os.path.join(REPLAYS, pid), exist_ok=True)
     for n, o in enumerate(violations):
